@@ -156,6 +156,26 @@ Print Assumptions C11_any_casing_of_a_name.
 Print Assumptions C11_comment_between_statements.
 Print Assumptions C11_text_with_comments_compiles.
 Print Assumptions C11_worked_example.
+(* ---------------- macros and ~ { } comptime blocks (now part of the model; ~! { } needs the VM and stays outside) ---------------- *)
+Definition C11_definitions_emit_no_code := @definitions_emit_no_code.
+Definition C11_unused_definition_changes_nothing := @unused_definition.
+Definition C11_comptime_block_is_its_assembled_bytes := @comptime_block.
+Definition C11_push_of_a_comptime_block := @push_comptime.
+Definition C11_macro_expansion := @macro_expansion.
+Definition C11_macro_expansion_example := macro_expansion_example.
+Definition C11_aliases_inside_def_fixed := fixed_def_alias.          (* D21, repaired *)
+Check C11_definitions_emit_no_code.
+Check C11_unused_definition_changes_nothing.
+Check C11_comptime_block_is_its_assembled_bytes.
+Check C11_macro_expansion.
+
+Print Assumptions C11_definitions_emit_no_code.
+Print Assumptions C11_unused_definition_changes_nothing.
+Print Assumptions C11_comptime_block_is_its_assembled_bytes.
+Print Assumptions C11_push_of_a_comptime_block.
+Print Assumptions C11_macro_expansion.
+Print Assumptions C11_macro_expansion_example.
+Print Assumptions C11_aliases_inside_def_fixed.
 Print Assumptions C11_every_spelling_assembles_to_the_encoding.
 Print Assumptions C11_listing_assembles.
 Print Assumptions C11_listing_needs_no_nested_def.
